@@ -307,13 +307,57 @@ func (h *vDB) overlap(s int, kg []byte, nv int) {
 				inj = true
 			}
 		}
-		if inj {
+		switch {
+		case inj && vrt.Choose(vrt.K("role", s), 2) == 0:
+			// the Get is the interrupted call: it is held right after its table lookup (a wrapper around the
+			// stacked reader), the writer is started and queues up for the database lock (or runs, if the Get
+			// holds no lock at that point), then the Get is let go
+			hold := &vHoldAfterGet{gate: make(chan struct{})}
+			h.db.sstableManager.managerLock.Lock()
+			hold.SSTableReaderI = h.db.sstableManager.currentReader
+			h.db.sstableManager.currentReader = hold
+			h.db.sstableManager.managerLock.Unlock()
+			r := h.start(reader)
+			vWaitUntil(func() bool {
+				for _, st := range vrt.GoroutineStates("vHoldAfterGet).Get") {
+					if st == "chan receive" {
+						return true
+					}
+				}
+				return r.finished()
+			})
+			w := h.start(writer)
+			// the writer is done, or parked (database lock, or hand-off to the stalled flusher - in which case
+			// the flusher gets its token and the writer goes on until it is done or parked again)
+			vWaitUntil(func() bool {
+				if w.finished() {
+					return true
+				}
+				if vFlusherStalled() && vClientWaitsForFlusher() {
+					h.gate <- struct{}{}
+					return false
+				}
+				for _, st := range vrt.GoroutineStates("vClientCall", "simpledb.(*DB).") {
+					if st == "sync.RWMutex.Lock" || st == "sync.Mutex.Lock" || st == "semacquire" {
+						return true
+					}
+				}
+				return false
+			})
+			close(hold.gate)
+			h.drive(w, r)
+			h.db.sstableManager.managerLock.Lock()
+			if h.db.sstableManager.currentReader == sstables.SSTableReaderI(hold) {
+				h.db.sstableManager.currentReader = hold.SSTableReaderI
+			}
+			h.db.sstableManager.managerLock.Unlock()
+		case inj:
 			w := h.start(writer)
 			h.waitParkedOrDone(w)
 			r := h.start(reader)
 			h.waitParkedOrDone(r)
 			h.drive(w, r)
-		} else {
+		default:
 			reader()
 			h.call(writer)
 		}
@@ -745,4 +789,17 @@ func vWaitUntil(cond func() bool) {
 		}
 		time.Sleep(200 * time.Microsecond)
 	}
+}
+
+// vHoldAfterGet (native runs): a table reader whose Get returns only after its gate is opened (the lookup itself
+// is done before).
+type vHoldAfterGet struct {
+	sstables.SSTableReaderI
+	gate chan struct{}
+}
+
+func (r *vHoldAfterGet) Get(key []byte) ([]byte, error) {
+	v, err := r.SSTableReaderI.Get(key)
+	<-r.gate
+	return v, err
 }
